@@ -1,0 +1,15 @@
+//go:build verif
+
+package descendalloc
+
+// Contracts for the govc verifier (/verif). Comment-only.
+
+//@ func (alloc DescendAllocator) Allocate
+//@   property C03
+//@   implements ipfscluster.PinAllocator.Allocate
+//@   ensures err == nil
+//@   ensures [priority-first] forall i int, j int :: 0 <= i && i < j && j < len(res) && in(res[j], dom(priority)) ==> in(res[i], dom(priority))
+//@   ensures [ranked-priority] forall i int, j int :: 0 <= i && i < j && j < len(res) && in(res[i], dom(priority)) && in(res[j], dom(priority)) ==> parsed(priority[res[i]].Value) >= parsed(priority[res[j]].Value)
+//@   ensures [ranked-candidates] forall i int, j int :: 0 <= i && i < j && j < len(res) && in(res[i], dom(candidates)) && in(res[j], dom(candidates)) ==> parsed(candidates[res[i]].Value) >= parsed(candidates[res[j]].Value)
+//@   ensures [only-valid] forall p peer.ID :: in(p, elems(res)) ==> (in(p, dom(priority)) && priority[p].Valid) || (in(p, dom(candidates)) && candidates[p].Valid)
+//@   modifies nothing
